@@ -232,6 +232,35 @@ func decorations(op *Op, withArgs bool) []Dec {
 			}
 		}
 	}
+	// custom directive that survives normalization, at every kind of site
+	for _, f := range []string{"lit", "var", "varA", "varZ"} {
+		out = append(out, Dec{Kind: "tag", Arg: "op", Form: f})
+	}
+	for _, s := range sets {
+		for _, n := range *s.Sel {
+			shared := hasIntArgX(s.Type, n)
+			for _, f := range []string{"lit", "var", "varA", "varZ"} {
+				out = append(out, Dec{Kind: "tag", ID: n.ID, Form: f})
+			}
+			if shared {
+				for _, f := range []string{"shared", "sharedA", "sharedZ"} {
+					out = append(out, Dec{Kind: "tag", ID: n.ID, Form: f}, Dec{Kind: "tag", ID: n.ID, Arg: "op", Form: f})
+				}
+			}
+			if n.K == 'f' {
+				for _, where := range []string{"spread", "inl"} {
+					out = append(out, Dec{Kind: "tag", ID: n.ID, Arg: where, Form: "var"}, Dec{Kind: "tag", ID: n.ID, Arg: where, Form: "varA"})
+					if shared {
+						out = append(out, Dec{Kind: "tag", ID: n.ID, Arg: where, Form: "shared"})
+					}
+				}
+			}
+		}
+	}
+	// the same literal at two positions of similar types, both orders
+	for i := range twinMenu {
+		out = append(out, Dec{Kind: "twin", Val: i, Form: "fwd"}, Dec{Kind: "twin", Val: i, Form: "rev"})
+	}
 	// operation level
 	out = append(out, Dec{Kind: "unusedvar"})
 	if len(op.Vars) > 0 {
@@ -281,6 +310,69 @@ func argType(fd *fieldDef, name string) string {
 		}
 	}
 	return ""
+}
+
+// twinMenu: the SAME literal at two argument positions whose types are different but
+// similar (one nullability level, list depth, similar scalar). Variable extraction
+// re-uses an extracted variable only for an equal value at an EQUAL type.
+type twinSel struct {
+	Field string
+	Args  []Arg
+}
+
+type twinEntry struct {
+	Sels  []twinSel
+	Class string
+}
+
+var (
+	l12  = vList(vInt(1), vInt(2))
+	ll1  = vList(vList(vInt(1)))
+	lobj = vList(vObj("r", vInt(1)))
+)
+
+var twinMenu = []twinEntry{
+	{[]twinSel{{"t", []Arg{{"l", l12}, {"li", l12}}}}, "equal literals at [T] and [T!]"},
+	{[]twinSel{{"t", []Arg{{"ll", ll1}, {"lli", ll1}}}}, "equal literals at [[T]] and [[T]!]"},
+	{[]twinSel{{"tl", []Arg{{"l", l12}, {"li", l12}}}}, "equal literals at [T]! and [T!]!"},
+	{[]twinSel{{"t", []Arg{{"i", vInt(1)}}}, {"tn", []Arg{{"i", vInt(1)}}}}, "equal literals at T and T!"},
+	{[]twinSel{{"t", []Arg{{"l", l12}}}, {"tl", []Arg{{"l", l12}, {"li", vList(vInt(3))}}}}, "equal literals at [T] and [T]!"},
+	{[]twinSel{{"t", []Arg{{"i", vInt(1)}, {"l", vInt(1)}}}}, "equal literals at T and [T] (single value)"},
+	{[]twinSel{{"t", []Arg{{"l", vInt(1)}, {"ll", vInt(1)}}}}, "equal literals at [T] and [[T]] (single value)"},
+	{[]twinSel{{"t", []Arg{{"i", vInt(1)}, {"fl", vInt(1)}}}}, "equal literals at Int and Float"},
+	{[]twinSel{{"t", []Arg{{"s", vStr("s")}, {"id", vStr("s")}}}}, "equal literals at String and ID"},
+	{[]twinSel{{"t", []Arg{{"ol", lobj}, {"oli", lobj}}}}, "equal literals at [In] and [In!]"},
+}
+
+// tag decoration: @tag(name: ...) / @tag(n: ...) - a custom executable directive that
+// SURVIVES normalization - at every kind of site.
+//
+//	Arg (where)  ""      on the node itself (field, inline fragment, fragment spread)
+//	             op      on the operation
+//	             spread  the field is wrapped in a named fragment, the directive sits on the spread
+//	             inl     the field is wrapped in `... @tag(..) { field }`
+//	Form (what)  lit     @tag(name: "x")
+//	             var     @tag(name: $tg<id>), the variable is used only there
+//	             varA    the same, the variable is called "a" (a name the variables mapper hands out)
+//	             varZ    the same with another spelling (member of the class of var: differs only in the variable name)
+//	             shared  @tag(n: $tg<id>) and the same variable as field argument x
+//	             sharedA / sharedZ   the same with the other spellings
+func tagVarName(d Dec) string {
+	switch {
+	case strings.HasSuffix(d.Form, "A"):
+		return "a"
+	case strings.HasSuffix(d.Form, "Z"):
+		return fmt.Sprintf("zq_tg%d", d.ID)
+	}
+	return fmt.Sprintf("tg%d", d.ID)
+}
+
+func hasIntArgX(t string, n *Node) bool {
+	if n == nil || n.K != 'f' || types[t] == nil {
+		return false
+	}
+	fd := types[t].field(n.Name)
+	return fd != nil && len(fd.Args) > 0 && fd.Args[0].Name == "x" && fd.Args[0].Type == "Int"
 }
 
 // absFragForms: `... on I { id ... on A { zk: k } ... on B { b } }` (inline / named fragment,
@@ -409,6 +501,113 @@ func apply(op *Op, d Dec) bool {
 		*set.Sel = ns
 		op.Frags = append(op.Frags, newFrags...)
 		return true
+	case "twin":
+		if d.Val >= len(twinMenu) {
+			return false
+		}
+		e := twinMenu[d.Val]
+		var nodes []*Node
+		for _, ts := range e.Sels {
+			for _, c := range op.Sel {
+				if c.K == 'f' && c.Alias == "" && c.Name == ts.Field {
+					return false
+				}
+			}
+			args := append([]Arg(nil), ts.Args...)
+			if d.Form == "rev" {
+				for i, j := 0, len(args)-1; i < j; i, j = i+1, j-1 {
+					args[i], args[j] = args[j], args[i]
+				}
+			}
+			nodes = append(nodes, &Node{ID: op.newID(), K: 'f', Name: ts.Field, Args: args})
+		}
+		if d.Form == "rev" {
+			for i, j := 0, len(nodes)-1; i < j; i, j = i+1, j-1 {
+				nodes[i], nodes[j] = nodes[j], nodes[i]
+			}
+		} else if d.Form != "fwd" {
+			return false
+		}
+		op.Sel = append(append([]*Node(nil), op.Sel...), nodes...)
+		return true
+	case "tag":
+		shared := strings.HasPrefix(d.Form, "shared")
+		var n *Node
+		var set selSet
+		var idx int
+		if d.ID != 0 {
+			n, set, idx = op.find(d.ID)
+			if n == nil {
+				return false
+			}
+		} else if d.Arg != "op" || shared {
+			return false
+		}
+		if shared && !hasIntArgX(set.Type, n) {
+			return false
+		}
+		if (d.Arg == "spread" || d.Arg == "inl") && n.K != 'f' {
+			return false
+		}
+		dir := Dir{N: "tag", A: "name"}
+		switch d.Form {
+		case "lit":
+			dir.If = vStr("x")
+		case "var", "varA", "varZ":
+			vn := tagVarName(d)
+			if op.hasVar(vn) {
+				return false
+			}
+			op.addVar(VarDef{N: vn, T: "String"}, true, "x")
+			dir.If = vVar(vn)
+		case "shared", "sharedA", "sharedZ":
+			vn := tagVarName(d)
+			if op.hasVar(vn) {
+				return false
+			}
+			for _, a := range n.Args {
+				if a.N == "x" && a.V.hasVar() {
+					return false
+				}
+			}
+			op.addVar(VarDef{N: vn, T: "Int"}, true, 1)
+			dir.A = "n"
+			dir.If = vVar(vn)
+			na := []Arg{{N: "x", V: vVar(vn)}}
+			for _, a := range n.Args {
+				if a.N != "x" {
+					na = append(na, a)
+				}
+			}
+			n.Args = na
+		default:
+			return false
+		}
+		switch d.Arg {
+		case "":
+			n.Dirs = append(append([]Dir(nil), n.Dirs...), dir)
+		case "op":
+			op.Dirs = append(op.Dirs, dir)
+		case "spread", "inl":
+			sel := *set.Sel
+			var w *Node
+			var nf []Frag
+			if d.Arg == "inl" {
+				w = &Node{ID: op.newID(), K: 'i', Dirs: []Dir{dir}, Sel: []*Node{n}}
+			} else {
+				name := fmt.Sprintf("F%d", len(op.Frags)+1)
+				w = &Node{ID: op.newID(), K: 's', Name: name, Dirs: []Dir{dir}}
+				nf = append(nf, Frag{N: name, Cond: set.Type, Sel: []*Node{n}})
+			}
+			ns := append([]*Node(nil), sel[:idx]...)
+			ns = append(ns, w)
+			ns = append(ns, sel[idx+1:]...)
+			*set.Sel = ns
+			op.Frags = append(op.Frags, nf...)
+		default:
+			return false
+		}
+		return true
 	case "absfrag":
 		var set selSet
 		found := false
@@ -522,6 +721,9 @@ func apply(op *Op, d Dec) bool {
 		m := map[string]string{}
 		for _, v := range op.Vars {
 			m[v.N] = "zq_" + v.N
+		}
+		for i := range op.Dirs {
+			op.Dirs[i].If = op.Dirs[i].If.renameVars(m)
 		}
 		for _, s := range op.sets() {
 			for _, n := range *s.Sel {
@@ -720,6 +922,12 @@ func (d Dec) canon() string {
 			return "self"
 		}
 		return "form"
+	case "tag":
+		switch d.Form {
+		case "varA", "varZ", "sharedA", "sharedZ":
+			return "form" // differs from var / shared only in the variable name
+		}
+		return "self"
 	}
 	return "self"
 }
@@ -732,6 +940,9 @@ func (d Dec) residue() (Dec, bool) {
 	case "form":
 		r := d
 		r.Form = "lit"
+		if d.Kind == "tag" {
+			r.Form = strings.TrimRight(d.Form, "AZ")
+		}
 		return r, true
 	}
 	return d, true
